@@ -625,6 +625,37 @@ def check_history(nm, f, d, lw):
                    f"{sorted(kw)} given explicitly", {"check": "history", "fn": nm, "args": [f, d, lw]}, [str(v0), str(v1)], "the same value")
 
 
+def check_submodel_array(nm, f, ds, lws):
+    """the ice / water sub-models given explicitly reach every element of array arguments: the value for arrays of density and liquid water
+    is, element by element, the value of the scalar call with the same sub-models"""
+    import inspect
+    from smrt.permittivity import snow_mixing_formula as smf
+    from smrt.permittivity.ice import ice_permittivity_tiuri84
+    from smrt.permittivity.water import water_permittivity_tiuri80
+    fn = getattr(smf, nm)
+    pars = inspect.signature(getattr(fn, "__wrapped__", fn)).parameters
+    kw = {}
+    if "ice_permittivity_model" in pars:
+        kw["ice_permittivity_model"] = ice_permittivity_tiuri84
+    if "water_permittivity_model" in pars:
+        kw["water_permittivity_model"] = water_permittivity_tiuri80
+    if not kw:
+        return None
+    va = run(lambda *a: fn(*a, **kw), (f, FP, np.array(ds), np.array(lws)))
+    if isinstance(va, str):
+        return None          # arrays refused: loud
+    va = np.asarray(va).ravel()
+    for i, (d, lw) in enumerate(zip(ds, lws)):
+        v = run(lambda *a: fn(*a, **kw), (f, FP, d, lw))
+        if isinstance(v, str):
+            continue
+        if va.shape != (len(ds),) or not abs(complex(va[i]) - complex(v)) <= 1e-9 * abs(complex(v)):
+            return Finding(f"snow_mixing_formula.{nm}:array-submodels", f"{nm}({f}, {FP}, density={ds}, liquid_water={lws}, {sorted(kw)} given): element {i} = "
+                           f"{va[i] if va.shape == (len(ds),) else va} but the scalar call gives {v}", {"check": "submodel-array", "fn": nm, "args": [f, ds, lws]},
+                           [str(va.tolist()), str(v)], "element-wise equal to the scalar calls")
+    return None
+
+
 def check_shape_forms(f, T, vb, w):
     """the documented equivalent ways of prescribing a mixture of brine inclusion shapes give one value: a dict {shape: ratio} in either
     insertion order, and a tuple of shapes with brine_mixing_ratio"""
@@ -755,6 +786,9 @@ def oracle(ctx, hints, effort):
     for nm in SUBMODEL_FNS:
         evals += 3
         keep(check_history(nm, float(rng.choice(FREQS)), float(rng.uniform(150, 600)), float(rng.choice([0.02, 0.08, 0.2]))))
+    for nm in SUBMODEL_FNS:
+        evals += 4
+        keep(check_submodel_array(nm, float(rng.choice([10.65e9, 18.7e9, 36.5e9])), [round(float(v), 1) for v in rng.uniform(150, 600, 3)], [0.02, 0.08, 0.2]))
     for nm, args in adm_cases(rng, n):
         evals += 1
         keep(check_admissible(nm, args))
@@ -821,6 +855,8 @@ def replay(inp, rp=None):
         return check_shape_forms(*inp["args"])
     if c == "history":
         return check_history(inp["fn"], *inp["args"])
+    if c == "submodel-array":
+        return check_submodel_array(inp["fn"], *inp["args"])
     if c == "reference":
         return check_reference(inp["fn"], inp["args"], reference=inp["reference"])
     if c == "three":
